@@ -597,12 +597,17 @@ def frontier(fn, depth, timeout_ms=60000):
 
 def coverage_certificate(paths, precondition=(), name='coverage'):
     """precondition AND NOT (PC_1 OR ... OR PC_n) must be unsat: every input follows one of the explored paths"""
-    s = z3.Solver()
-    s.set('timeout', 120000)
-    for p in precondition:
-        s.add(p)
-    s.add(z3.Not(z3.Or([z3.And(p.pc) if p.pc else z3.BoolVal(True) for p in paths])))
-    return check(s, 'coverage', name)
+    r = 'unknown'
+    for budget in (120000, 120000 * RETRY_FACTOR * 2):  # a second attempt with a longer budget before the certificate is reported as undecided
+        s = z3.Solver()
+        s.set('timeout', budget)
+        for p in precondition:
+            s.add(p)
+        s.add(z3.Not(z3.Or([z3.And(p.pc) if p.pc else z3.BoolVal(True) for p in paths])))
+        r = check(s, 'coverage', name)
+        if r != 'unknown':
+            break
+    return r
 
 
 def prove(goal, assumptions=(), timeout_ms=60000, name=None, kind='validity'):
